@@ -1,6 +1,7 @@
 package scen
 
 import (
+	"context"
 	"fmt"
 	"sort"
 	"strings"
@@ -18,10 +19,19 @@ type reqParams struct {
 	TwoTargets bool // requesters alternate between two echo actors
 	SlowReply  bool // responder sleeps 2x the timeout (virtual) before replying
 	LateReply  bool // responder sends one more reply after the requester is done (via Quiesce)
+	LateResult bool // the requester lets more than the timeout pass (virtual sleep) before it calls Result: the reply is waiting by then
+	Second     bool // every requester issues a second request afterwards, to an actor that never replies: it must time out
 }
 
 func (p reqParams) String() string {
-	return fmt.Sprintf("R%dk%dtwo%vslow%vlate%v", p.Requesters, p.Replies, p.TwoTargets, p.SlowReply, p.LateReply)
+	s := fmt.Sprintf("R%dk%dtwo%vslow%vlate%v", p.Requesters, p.Replies, p.TwoTargets, p.SlowReply, p.LateReply)
+	if p.LateResult {
+		s += "lateresult"
+	}
+	if p.Second {
+		s += "second"
+	}
+	return s
 }
 
 type reqMsg struct{ N int }
@@ -32,6 +42,10 @@ type reqOutcome struct {
 	t0, t1   int64
 	respPID  string
 	regAfter bool
+	// second request (to a silent actor)
+	got2 any
+	err2 error
+	did2 bool
 }
 
 func engRequest(variants []reqParams) vsched.Instance {
@@ -65,6 +79,7 @@ func engRequest(variants []reqParams) vsched.Instance {
 		if p.TwoTargets {
 			b = k.E.Spawn(k.Producer("B", echo), "echo", actor.WithID("b"))
 		}
+		silent := k.E.Spawn(k.Producer("S", nil), "silent", actor.WithID("1"))
 		vsched.EndSetup()
 		k.Log = nil
 		outs = make([]*reqOutcome, p.Requesters)
@@ -79,11 +94,18 @@ func engRequest(variants []reqParams) vsched.Instance {
 				outs[i] = o
 				resp := k.E.Request(tgt, reqMsg{i}, timeout)
 				o.respPID = pidStr(resp.PID())
+				if p.LateResult {
+					vsched.Sleep(3 * timeout)
+				}
 				o.t0 = vsched.VNow()
 				o.got, o.err = resp.Result()
 				o.t1 = vsched.VNow()
 				parts := strings.SplitN(resp.PID().ID, "/", 2)
 				o.regAfter = k.E.Registry.GetPID(parts[0], parts[1]) != nil
+				if p.Second {
+					o.got2, o.err2 = k.E.Request(silent, reqMsg{500 + i}, timeout).Result()
+					o.did2 = true
+				}
 			})
 		}
 		vsched.Quiesce()
@@ -149,6 +171,9 @@ func engRequest(variants []reqParams) vsched.Instance {
 					vs = append(vs, V("timeout/reply-sent-in-time-was-undeliverable", "%s: requester %d: %v; Result called at %d, reply sent at %d, timeout %v, all %d replies dead-lettered; events %v", p, i, o.err, o.t0, at, timeout, p.Replies, k.Events()))
 				}
 			}
+			if o.did2 && (o.err2 == nil || o.got2 != nil) {
+				vs = append(vs, V("correlation/request-to-silent-actor-got-a-result", "%s: requester %d: second request, to an actor that never replies, returned (%v, %v)", p, i, o.got2, o.err2))
+			}
 			if o.regAfter {
 				vs = append(vs, V("registry/response-pid-still-registered-after-result", "%s: requester %d: %s", p, i, o.respPID))
 			}
@@ -173,6 +198,9 @@ func engRequest(variants []reqParams) vsched.Instance {
 		for _, o := range outs {
 			if o != nil {
 				s += fmt.Sprintf(" %d->%v/%v@%d", o.payload, o.got, o.err, o.t1-o.t0)
+				if o.did2 {
+					s += fmt.Sprintf("+%v/%v", o.got2, o.err2)
+				}
 			}
 		}
 		return s
@@ -359,6 +387,58 @@ func engEventConc(nb, m int) vsched.Instance {
 	return vsched.Instance{Body: body, Check: check, Outcome: outcome}
 }
 
+// engEventDyingSubscriber: three subscribers a, b, c (subscribed in every order); b stops without
+// unsubscribing; then two events are broadcast. a and c must each get ActorStopped(b) once and
+// both broadcasts once, in order, whatever the position of b among the subscribers.
+func engEventDyingSubscriber() vsched.Instance {
+	var k *Kit
+	var order []int
+	body := func() {
+		k = NewQuietKit()
+		k.E = func() *actor.Engine { e, _ := actor.NewEngine(actor.NewEngineConfig()); return e }() // events are what we look at: a normal engine
+		names := []string{"a", "b", "c"}
+		pids := map[string]*actor.PID{}
+		for _, n := range names {
+			n := n
+			pids[n] = k.E.Spawn(k.Producer(n, nil), "sub", actor.WithID(n))
+		}
+		vsched.EndSetup()
+		perm := [][]int{{0, 1, 2}, {0, 2, 1}, {1, 0, 2}, {1, 2, 0}, {2, 0, 1}, {2, 1, 0}}[vsched.Choose(6)]
+		order = perm
+		for _, i := range perm {
+			k.E.Subscribe(pids[names[i]])
+		}
+		vsched.Quiesce()
+		vsched.Recv(k.E.Poison(pids["b"]).Done())
+		k.E.BroadcastEvent(evtMsg{1})
+		k.E.BroadcastEvent(evtMsg{2})
+		vsched.Quiesce()
+	}
+	check := func(r *vsched.Result) []vsched.Violation {
+		vs := stdEnd(r)
+		if len(vs) > 0 {
+			return vs
+		}
+		for _, nm := range []string{"a", "c"} {
+			var got []string
+			for _, e := range k.Recv(nm) {
+				switch m := e.Raw.(type) {
+				case evtMsg:
+					got = append(got, fmt.Sprint("e", m.N))
+				case actor.ActorStoppedEvent:
+					got = append(got, "stopped:"+m.PID.ID)
+				}
+			}
+			if want := "[stopped:sub/b e1 e2]"; fmt.Sprint(got) != want {
+				vs = append(vs, V("eventstream/live-subscriber-misses-or-repeats-an-event", "subscription order %v, b stopped without unsubscribing: subscriber %s received %v, want %s", order, nm, got, want))
+			}
+		}
+		return vs
+	}
+	outcome := func() string { return fmt.Sprint(order) }
+	return vsched.Instance{Body: body, Check: check, Outcome: outcome}
+}
+
 // engEngineEvents: the engine's own lifecycle events reach a monitor exactly once per occurrence.
 func engEngineEvents() vsched.Instance {
 	var k *Kit
@@ -376,6 +456,7 @@ func engEngineEvents() vsched.Instance {
 		k.E.Spawn(k.Producer("A", nil), "a", actor.WithID("1")) // duplicate id
 		k.E.Send(pid, 1)                                         // crash + restart
 		k.E.Send(actor.NewPID("local", "nobody/1"), 5)           // dead letter
+		k.E.Send(actor.NewPID("10.0.0.9:4000", "far/1"), 6)      // no remote: EngineRemoteMissingEvent (sent without sender)
 		vsched.Go("stopper", func() { vsched.Recv(k.E.Poison(pid).Done()) })
 		vsched.Quiesce()
 	}
@@ -387,6 +468,7 @@ func engEngineEvents() vsched.Instance {
 		want := map[string]int{
 			"ActorInitialized(local/a/1)": 2, "ActorStarted(local/a/1)": 2, "ActorRestarted(local/a/1,1)": 1,
 			"ActorDuplicateId(local/a/1)": 1, "DeadLetter(local/nobody/1,m5,)": 1, "ActorStopped(local/a/1)": 1,
+			"EngineRemoteMissing(10.0.0.9:4000/far/1,m6,)": 1,
 		}
 		got := map[string]int{}
 		for _, e := range k.Events() {
@@ -424,6 +506,10 @@ type treeParams struct {
 	//   before the root's shutdown (quiescence in between): 4 Children() queried while a leaf stops itself, then again afterwards,
 	//   6 a leaf panics once and is restarted, 7 the root panics once and is restarted,
 	//   8 the root has one more child that dies during its own start (Started panics, MaxRestarts 0); Children() is queried
+	//   9 a leaf panics (once) inside its final Stopped handler
+	//   10 every actor of the tree is spawned WithContext(a context that is cancelled already)
+	//   11 a third party poisons a leaf; while the leaf is inside its Stopped handler (it blocks there until the
+	//      driver releases it) another thread poisons the root: the shutdown reaches a child that is stopping already
 	Extra int
 }
 
@@ -455,9 +541,22 @@ func engTree(variants []treeParams) vsched.Instance {
 	pids := map[string]*actor.PID{}
 	crashed := map[string]bool{}
 	stoppedSelf := ""
+	stopPaniced := false
+	inHandler := false
+	release := make(chan struct{})
 	body := func() {
 		p = variants[chooseVariant(len(variants))]
 		k = NewKit()
+		leafName := "r"
+		for d := 0; d < p.Depth; d++ {
+			leafName += ".0"
+		}
+		var spawnOpts []actor.OptFunc
+		if p.Extra == 10 {
+			cctx, cancel := context.WithCancel(context.Background())
+			cancel()
+			spawnOpts = append(spawnOpts, actor.WithContext(cctx))
+		}
 		var mk func(name string, depth int) Behaviour
 		mk = func(name string, depth int) Behaviour {
 			return func(k *Kit, c *actor.Context, inc int) {
@@ -479,15 +578,26 @@ func engTree(variants []treeParams) vsched.Instance {
 						for i := 0; i < p.Fan; i++ {
 							cn := fmt.Sprintf("%s.%d", name, i)
 							parentOf[cn] = name
-							c.SpawnChild(k.Producer(cn, mk(cn, depth+1)), "n", actor.WithID(cn), actor.WithRestartDelay(0))
+							c.SpawnChild(k.Producer(cn, mk(cn, depth+1)), "n", append([]actor.OptFunc{actor.WithID(cn), actor.WithRestartDelay(0)}, spawnOpts...)...)
 						}
 					}
 				case actor.Stopped:
+					defer k.Note(name, "handled-stopped")
 					// all descendants must be unregistered by now
 					for dn, dp := range pids {
 						if dn != name && strings.HasPrefix(dn, name+".") && c.GetPID(dp.ID) != nil {
 							regAtStopped[name] = append(regAtStopped[name], regObs{inc, name + ">" + dn})
 						}
+					}
+					if p.Extra == 9 && name == leafName && !stopPaniced {
+						stopPaniced = true
+						panic("in the Stopped handler")
+					}
+					if p.Extra == 11 && name == leafName && !inHandler {
+						inHandler = true
+						e := c.Engine()
+						vsched.Go("shutdown", func() { e.Poison(rootPID) })
+						vsched.Recv(release)
 					}
 				case string:
 					switch m {
@@ -515,7 +625,7 @@ func engTree(variants []treeParams) vsched.Instance {
 				}
 			}
 		}
-		rootPID = k.E.Spawn(k.Producer("r", mk("r", 0)), "n", actor.WithID("r"), actor.WithRestartDelay(0))
+		rootPID = k.E.Spawn(k.Producer("r", mk("r", 0)), "n", append([]actor.OptFunc{actor.WithID("r"), actor.WithRestartDelay(0)}, spawnOpts...)...)
 		vsched.EndSetup()
 		// pick the first leaf
 		ln := "r"
@@ -552,6 +662,13 @@ func engTree(variants []treeParams) vsched.Instance {
 			vsched.Quiesce()
 		case 7:
 			k.E.Send(rootPID, "crash1")
+			vsched.Quiesce()
+		case 11:
+			k.E.Poison(leaf)
+			vsched.Quiesce()
+			if inHandler {
+				vsched.Send(release, struct{}{})
+			}
 			vsched.Quiesce()
 		}
 		vsched.Go("stopper", func() {
@@ -590,6 +707,27 @@ func engTree(variants []treeParams) vsched.Instance {
 				// the actor itself lives on (restart) and keeps its children
 				if e.Inc == k.Incs(e.Actor) {
 					stoppedAt[e.Actor] = i
+				}
+			}
+		}
+		// position at which each actor's (last) Stopped handler returned
+		handledAt := map[string]int{}
+		for i, e := range k.Log {
+			if e.Kind == "note" && e.Msg == "handled-stopped" {
+				handledAt[e.Actor] = i
+			}
+		}
+		for child, parent := range parentOf {
+			ch, ok1 := handledAt[child]
+			ps, ok2 := stoppedAt[parent]
+			if ok1 && ok2 && ch > ps {
+				vs = append(vs, V("tree/parent-stopped-before-descendant-finished-stopped", "%s: %s handled Stopped while its child %s was still inside its Stopped handler; log: %s", p, parent, child, k.LogString()))
+			}
+		}
+		if ctxDoneLogIdx >= 0 {
+			for name, at := range handledAt {
+				if at >= ctxDoneLogIdx {
+					vs = append(vs, V("tree/stop-context-done-before-descendants-stopped", "%s: root stop context done before %s finished handling Stopped", p, name))
 				}
 			}
 		}
